@@ -3,6 +3,7 @@
     push_old_param(s), reset; MessageBodyParser: get, get2..5, get_param), Wire/HasSig.v (has_sig). *)
 From RB Require Import Base.Prelude Sig.Types Wire.Value Wire.SpecEnc Wire.Marshal Wire.Relabel Wire.MarshalProofs
   Wire.Unmarshal Wire.HasSig Wire.HasSigProofs Wire.Body Wire.BodyProofs.
+From RB Require Import Sig.Parser Wire.Decode Wire.DecodeComplete Wire.DecodeSoundLemmas Wire.BodyAdvance.
 
 (* after ANY history of pushes (succeeding or failing at any inner element) and resets, signature,
    bytes and descriptor count are exactly the specification's rendering of the items committed since
@@ -57,3 +58,70 @@ Theorem C15_success_advances : forall p e before t after p' v, parser_at p befor
   erase e = t /\ psig_idx p' = psig_idx p + len (to_str t) /\ pbody p' = pbody p.
 Proof. exact get_success_sig. Qed.
 Print Assumptions C15_success_advances.
+
+(** ** the byte cursor, multi-gets and get_param (Wire/BodyAdvance.v; examples in Wire/BodyAdvanceExamples.v) *)
+
+(* a successful get moves BOTH cursors by exactly the value returned: the signature index by the characters of its type,
+   the byte index by the length of the specification's encoding of the value at that position (alignment padding
+   included), and the bytes stepped over are that encoding.  [bytes_pos]: the buffer holds bytes and the byte index is
+   inside it; [ety_ok e]: the Rust type asked for has no unit struct, element types that can stand in a signature, and
+   nests at most 64 containers *)
+Theorem C15_get_advances : forall p e before t after p' v,
+  parser_at p before t after -> bytes_pos p -> ety_ok e ->
+  get p e = Ok (p', GVal v) ->
+  erase e = t /\ wt v t = true /\ ety_matches e v = true
+  /\ pbody p' = pbody p
+  /\ psig_idx p' = psig_idx p + len (to_str t)
+  /\ pbuf_idx p' = pbuf_idx p + len (spec_enc (bbe (pbody p)) (pbuf_idx p) v)
+  /\ slice (bbuf (pbody p)) (pbuf_idx p) (len (spec_enc (bbe (pbody p)) (pbuf_idx p) v)) = spec_enc (bbe (pbody p)) (pbuf_idx p) v
+  /\ parser_pos p' (before ++ [t]) after /\ bytes_pos p'.
+Proof. exact get_success_advances. Qed.
+Print Assumptions C15_get_advances.
+
+(* get2..get5 (any number of requested types): a success returns one value per requested type, the remaining signature
+   started with exactly those types, and both cursors moved by exactly those k values ([enc_seq]: the specification's
+   encodings one after the other) *)
+Theorem C15_get_n_advances : forall p es before rest p' vs,
+  parser_pos p before rest -> bytes_pos p -> Forall ety_ok es ->
+  get_n p es = Ok (p', Some vs) ->
+  exists after, rest = map erase es ++ after
+    /\ Forall2 (fun v e => wt v (erase e) = true /\ ety_matches e v = true) vs es
+    /\ pbody p' = pbody p
+    /\ psig_idx p' = psig_idx p + len (to_str_list (map erase es))
+    /\ pbuf_idx p' = pbuf_idx p + len (enc_seq (bbe (pbody p)) (pbuf_idx p) vs)
+    /\ slice (bbuf (pbody p)) (pbuf_idx p) (len (enc_seq (bbe (pbody p)) (pbuf_idx p) vs)) = enc_seq (bbe (pbody p)) (pbuf_idx p) vs
+    /\ parser_pos p' (before ++ map erase es) after /\ bytes_pos p'.
+Proof. exact get_n_success_advances. Qed.
+Print Assumptions C15_get_n_advances.
+
+(* get_param: the same for the dynamic API, for a next type that can stand in a signature *)
+Theorem C15_get_param_advances : forall p before t after p' v,
+  parser_at p before t after -> bytes_pos p -> type_ok t = true ->
+  get_param p = Ok (p', GVal v) ->
+  wt v t = true
+  /\ pbody p' = pbody p
+  /\ psig_idx p' = psig_idx p + len (to_str t)
+  /\ pbuf_idx p' = pbuf_idx p + len (spec_enc (bbe (pbody p)) (pbuf_idx p) v)
+  /\ slice (bbuf (pbody p)) (pbuf_idx p) (len (spec_enc (bbe (pbody p)) (pbuf_idx p) v)) = spec_enc (bbe (pbody p)) (pbuf_idx p) v
+  /\ parser_pos p' (before ++ [t]) after /\ bytes_pos p'.
+Proof. exact get_param_success_advances. Qed.
+Print Assumptions C15_get_param_advances.
+
+(* a mismatch in ANY slot i of a multi-get (the i-th requested type is not the i-th remaining type of the signature):
+   whatever the call returns, it returns no values and the parser - both cursors - is where it was.  (That the call
+   does return, i.e. Ok, is C04_total_body_get_n.)  Corollary of C15_parser_failed_get_n and the success theorem. *)
+Theorem C15_get_n_mismatch : forall p es before rest i e t p' r,
+  parser_pos p before rest -> nth_error es i = Some e -> nth_error rest i = Some t -> erase e <> t ->
+  get_n p es = Ok (p', r) -> r = None /\ p' = p.
+Proof. exact get_n_mismatch_unchanged. Qed.
+Print Assumptions C15_get_n_mismatch.
+
+(* C15_builder renders typed pushes with the DECLARED signature of the Rust type ([Push (t, v)] appends [to_str t]),
+   which is what the code does (P::sig_str).  Rust ties the two: push_param::<T>(v : T).  With that tie as the hypothesis
+   [op_wt] (wt v t for every typed item), the body is the rendering of the committed VALUES with their own types *)
+Theorem C15_builder_by_value : forall be ops b oks,
+  Forall op_ok ops -> Forall op_wt ops -> total_fds ops <= 2 ^ 32 ->
+  run_body (new_body be) ops = (b, oks) ->
+  (bsig b, bbuf b, bfds b) = render be (committed_by_value ops oks []).
+Proof. exact body_history_by_value. Qed.
+Print Assumptions C15_builder_by_value.
